@@ -81,6 +81,7 @@ func treesCmd(args []string) *rep.Result {
 		return res
 	}
 	type job struct {
+		s    int64 // concretisation seed of the case
 		l    *TreeLine
 		pkg  *reg.Pkg
 		v    string
@@ -93,7 +94,7 @@ func treesCmd(args []string) *rep.Result {
 		go func() {
 			defer wg.Done()
 			for j := range jobs {
-				runTreeLaw(j.l, j.pkg, &conc.Ctx{C: cp, V: cp.Variants[j.v], Seed: c.seed}, j.mode, res)
+				runTreeLaw(j.l, j.pkg, &conc.Ctx{C: cp, V: cp.Variants[j.v], Seed: j.s}, j.mode, res)
 			}
 		}()
 	}
@@ -110,7 +111,7 @@ func treesCmd(args []string) *rep.Result {
 					continue
 				}
 				for _, m := range strings.Split(*modes, ",") {
-					jobs <- job{tl, pkg, v, m}
+					jobs <- job{s: c.seed + int64(i%13), l: tl, pkg: pkg, v: v, mode: m}
 				}
 			}
 		}
